@@ -373,6 +373,25 @@ theorem remove_attacker_twin_counterexample :
   have := h 0 (by decide) (by decide)
   cases this
 
+/-- asset object 0 has been removed from the model; asset object 1, added later with the same id and name, is
+equal to it by value -/
+def reusedHeap : H :=
+  { a := fun _ => { id := some 5, name := some "h", type := "Host", extras := some "{}" }, afresh := 2
+    assets := [1], asset_ids := [5], asset_names := ["h"], next_id := 6 }
+
+def valueEnv : ModelEnv := { eqA := fun _ _ => true, eqL := fun _ _ => false, whileFuel := 8 }
+
+/-- `remove_asset(old)` for an object that is no longer part of the model, but is equal by value to a live one,
+does not raise `LookupError`: it removes the live twin (the reference model rejects).  This is the case `EqId`
+excludes; the correspondence check does not generate it either (`usable_dead_assets` in `harness/mhist.py`). -/
+theorem remove_asset_twin_counterexample :
+    (∃ s', model_remove_asset reusedHeap valueEnv 0 = .ok s' ∧ s'.assets = [] ∧ s'.asset_ids = []) ∧
+    MS.removeAsset (abs reusedHeap) 0 = .error .lookupError ∧ ¬ EqId valueEnv := by
+  refine ⟨⟨_, rfl, by decide, by decide⟩, rfl, ?_⟩
+  intro h
+  have := h.asset 0 1 rfl
+  cases this
+
 /-! ### the hypotheses are satisfiable by non-trivial heaps -/
 
 example : EqId idEnv := idEnv_eqId
@@ -387,5 +406,29 @@ def demoOps : List MS.Op := [
   .addAttacker none none,
   .addEntryPoint 0 0 "access",
   .removeAsset 0]
+
+/-- the history is admissible (`Adm`: loop bound, no value twins of removed attackers) … -/
+theorem demo_admissible : AdmAll MS.Demo.lang idEnv {} demoOps := by
+  refine ⟨?_, ?_, trivial, trivial, trivial, trivial, trivial⟩ <;> (show _ ≤ _; decide)
+
+/-- … so `reachable_inv` applies to it: the heap it ends in is coherent … -/
+example : Inv (demoOps.foldl (stepGen MS.Demo.lang idEnv) {}) :=
+  (reachable_inv MS.Demo.lang demo_fieldsDistinct idEnv_eqId demoOps demo_admissible).2
+
+/-- … and is what one expects: the explicit ids 0 and -3 were honoured, the removed asset left no trace -/
+example :
+    let s := demoOps.foldl (stepGen MS.Demo.lang idEnv) {}
+    s.assets = [1] ∧ s.associations = [] ∧ s.attackers = [0] ∧ s.asset_ids = [-3] ∧ (s.a 1).id = some (-3) ∧
+    (s.t 0).entry_points = [] ∧ s._type_to_association = [] := by
+  decide
+
+/-- before the removal: the link and the entry point are there -/
+example :
+    let s := (demoOps.take 5).foldl (stepGen MS.Demo.lang idEnv) {}
+    s.assets = [0, 1] ∧ s.associations = [0] ∧ (s.a 0).id = some 0 ∧ (s.a 0).associations = [0] ∧
+    (s.t 0).entry_points = [0] ∧ (s.e 0).asset = 0 ∧ (s.e 0).steps = ["access"] ∧ EpOKAll s := by
+  refine ⟨by decide, by decide, by decide, by decide, by decide, by decide, by decide, ?_⟩
+  exact (run_sim MS.Demo.lang demo_fieldsDistinct idEnv_eqId (demoOps.take 5) {} init_inv epOKAll_empty
+    ⟨by show _ ≤ _; decide, by show _ ≤ _; decide, trivial, trivial, trivial, trivial⟩).2.2
 
 end MalVerif.PropsGen.C05
